@@ -37,6 +37,14 @@ def tasks(tier, seed):
     for p in corpus_cpp.P:
         for shape in tv.arg_shapes(p, tier):
             ts.append(dict(kind='prog', name='prog/%s/%s' % (p['name'], _shape_name(shape)), prog=p['name'], shape=[list(c) for c in shape], cost=2 + sum(c[1] if c[0] == 'list' else 1 for c in shape)))
+            # operands far apart: with 4-bit half-integers every binary64 / binary32 operation of these programs is exact and the
+            # hardware rounding mode never matters; the last real argument at 2^55 (2^26 for binary32 arguments) makes sums inexact
+            # (float_double_mix, early_return_under_mode: z3 leaves one 240-bit postcondition undecided within the 60 s limit; not claimed far apart)
+            if 'modes' in p['tags'] and p['name'] not in ('float_double_mix', 'early_return_under_mode') and sum(1 for c in shape if c[0] == 'real') >= 2:
+                far = 26 if 'FP32' in p.get('argfmt', 'fp.FP64') else 55
+                last = max(i for i, c in enumerate(shape) if c[0] == 'real')
+                sh2 = [list(c) for c in shape]; sh2[last] = ['real', far]
+                ts.append(dict(kind='prog', name='prog/%s/%s-far' % (p['name'], _shape_name(shape)), prog=p['name'], shape=sh2, cost=4 + sum(c[1] if c[0] == 'list' else 1 for c in shape)))
     ts.append(dict(kind='special', name='concrete/special-arguments', cost=6))
     return ts
 
@@ -232,6 +240,8 @@ def run_task(task):
     if not variants:
         return dict(paths=0, requires=0, cex=[], samples=[{'task': task['name'], 'note': 'declined under every option set', 'reasons': declined[:2]}], witness={}, notes=['declined: %s' % declined[0][1] if declined else ''], extra={'programs_declined': 1})
     W = 112 if ('FP64' in p['src'] or 'D_RT' in p['src'] or 'FP64' in p.get('ctx', 'fp.FP64')) else 64       # binary64 significands need the wide vectors
+    if any(c[0] == 'real' and len(c) > 1 for c in shape):
+        W = 240 if W == 112 else 128       # operands far apart: products of the far operand need twice its exponent again
     eng = explore(run, setup, W=W, bl_max=W - 8, max_paths=3000)
     for k, v in wit.items():
         eng.witness[k] = eng.witness.get(k, 0) + v
